@@ -877,6 +877,7 @@ void TasmanianSparseGrid::setAnisotropicRefinement(TypeDepth type, int min_growt
     if (outs == 0) throw std::runtime_error("ERROR: calling setAnisotropicRefinement() for a grid that has no outputs");
     if (base->getNumLoaded() == 0) throw std::runtime_error("ERROR: calling setAnisotropicRefinement() for a grid with no loaded values");
     if ((output < -1) || (output >= outs)) throw std::invalid_argument("ERROR: calling setAnisotropicRefinement() with invalid output");
+    if ((output == -1) && isGlobal()) throw std::invalid_argument("ERROR: calling setAnisotropicRefinement() for a Global grid requires a specific output, cannot use -1");
     if ((!level_limits.empty()) && (level_limits.size() != (size_t) dims)) throw std::invalid_argument("ERROR: setAnisotropicRefinement() requires level_limits with either 0 or dimenions entries");
 
     if (!level_limits.empty()) llimits = level_limits;
@@ -901,6 +902,7 @@ void TasmanianSparseGrid::estimateAnisotropicCoefficients(TypeDepth type, int ou
     if (outs == 0) throw std::runtime_error("ERROR: calling estimateAnisotropicCoefficients() for a grid that has no outputs");
     if (base->getNumLoaded() == 0) throw std::runtime_error("ERROR: calling estimateAnisotropicCoefficients() for a grid with no loaded values");
     if ((output < -1) || (output >= outs)) throw std::invalid_argument("ERROR: calling estimateAnisotropicCoefficients() with invalid output");
+    if ((output == -1) && isGlobal()) throw std::invalid_argument("ERROR: calling estimateAnisotropicCoefficients() for a Global grid requires a specific output, cannot use -1");
 
     if (isSequence()){
         get<GridSequence>()->estimateAnisotropicCoefficients(type, output, weights);
@@ -1028,6 +1030,7 @@ std::vector<double> TasmanianSparseGrid::getCandidateConstructionPoints(TypeDept
     int outs = base->getNumOutputs();
     if (outs == 0) throw std::runtime_error("ERROR: calling getCandidateConstructionPoints() for a grid that has no outputs");
     if ((output < -1) || (output >= outs)) throw std::invalid_argument("ERROR: calling getCandidateConstructionPoints() with invalid output");
+    if ((output == -1) && isGlobal()) throw std::invalid_argument("ERROR: calling getCandidateConstructionPoints() for a Global grid requires a specific output, cannot use -1");
 
     if (!level_limits.empty()) llimits = level_limits;
     std::vector<double> x;
